@@ -356,6 +356,50 @@ def _envshare_rule(chk, prog):
     chk.floor(rule, 3, n)
 
 
+def _childlink_rule(chk, prog):
+    """When a fiber hands a child's resumable signal outward (resume / propagate / cancel instructions returning the
+    child's signal), it must be left pointing at that child: janet_continue_no_check re-enters the innermost suspended
+    fiber by following fiber->child, so a missing link sends the next resume value to the wrong fiber."""
+    rule = "C05-CHILDLINK"
+    chk.rule(rule, "run_vm returns a child's signal only with fiber->child linked to that child on every path")
+    from jv.vm import VMHandlers
+    full = Program.load("default", units=["vm.c"])
+    vm = VMHandlers(full)
+    vfn = vm.fn
+    dispatch = vfn.igoto
+    n = 0
+
+    def is_link(x):
+        return x.k == "asg" and x.op == "=" and x.kids[0].k == "mem" and x.kids[0].field == "child" and x.kids[0].rec == "JanetFiber" \
+            and is_ref(strip_casts(x.kids[0].kids[0]), "fiber")
+
+    def transfer(st, x):
+        if is_link(x):
+            return frozenset(["linked"]) if strip_casts(x.kids[1]).v != 0 else frozenset()
+        return st
+    for lab, e in sorted(vm.handler_entry_blocks().items()):
+        if not lab.startswith("label_JOP_"):
+            continue
+        I, O = flow.forward(vfn, frozenset(), transfer, lambda a, b: a & b,
+                            edge=lambda st, blk, succ, c, t: None if succ == dispatch else st, start=e)
+        blocks = set(I)
+        if not any(is_link(x) for b in blocks for x in vfn.blocks[b].elems):
+            continue
+        for b, st in I.items():
+            for x in vfn.blocks[b].elems:
+                if x.k == "return" and x.kids and x.kids[0].v is None and x.in_macro("vm_return"):
+                    n += 1
+                    chk.instance(rule)
+                    if "linked" in st:
+                        chk.ok(rule, "%s: signal returned at %s with the child linked" % (lab[6:], x.loc))
+                    else:
+                        chk.violation(rule, "vm.c", "run_vm", "%s:return" % lab[6:], x.loc,
+                                      "%s can return the sub-fiber's signal without fiber->child pointing at it on every path: when the "
+                                      "outer fiber is resumed, the value is not delivered to the suspended inner fiber" % lab[6:])
+                st = transfer(st, x)
+    chk.floor(rule, 3, n)
+
+
 def run(chk):
     prog = Program.load("default", units=["vm.c", "fiber.c", "value.c", "marsh.c", "ev.c", "util.c", "capi.c", "corelib.c"])
     _terminal_rule(chk, prog)
@@ -365,3 +409,4 @@ def run(chk):
     _statuswrite_rule(chk, prog)
     _saverestore_rule(chk, prog)
     _envshare_rule(chk, prog)
+    _childlink_rule(chk, prog)
